@@ -16,7 +16,8 @@ RULE = ("chains p0 <- p1 <- ... of length 1..5 of partitions (InMemoryPartition 
         "absent or cleared) or 'from cache' (memoized earlier, served by the memory cache); back-ends "
         "{filesystem, filesystem + 4 KiB cache, filesystem + 16 MiB cache}; every handed-back partition is "
         "compared with the overlay of levels 0..k key by key, each key loaded on its own, before and after "
-        "later calls, and re-read through a cache-less backend; non-trivial = distinct (chain length, kinds, "
+        "later calls (also at the end, after children and one or two *sibling* children of a random level were "
+        "stored on top of it), and re-read through a cache-less backend; non-trivial = distinct (chain length, kinds, "
         "parent provenances, backend) with at least one overlapping key")
 ASSUMPTIONS = ["a child declares its parent by setting _merge_parent, as the repository's own tests do",
                "values inside partitions are drawn from the non-partition result domain"]
@@ -127,9 +128,52 @@ def run_case(case):
                 check_partition(out, fail, plain.read_result(m), overlays[l], label, "level %d, re-read from disk" % l)
             if nxt == "disk" and st._memory_cache is not None:
                 st._memory_cache.forget_everything()
-        # values handed out earlier stay usable after everything else happened
-        for l, got in held:
-            check_partition(out, fail, got, overlays[l], label, "level %d, first value re-used at the end" % l)
+        # siblings: further children of a partition that already has a child
+        if L > 1 and not out["viol"]:
+            for tag in ["s1", "s2"][: rng.randint(1, 2)]:
+                j = rng.randint(1, L - 1)
+                sk = rng.sample(KEYPOOL, rng.randint(1, 3))
+                sspec = {"kind": rng.choice(["mem", "disk"]), "make": level_factory(case["seed"], case["idx"], "sib" + tag, sk)}
+                ffuncs.TABLE[cid + "/sib/" + tag] = sspec
+                want = dict(overlays[j - 1])
+                want.update(sspec["make"]())
+                smode = rng.choice(["disk", "cache"] if st._memory_cache is not None else ["disk"])
+                if smode == "disk" and st._memory_cache is not None:
+                    st._memory_cache.forget_everything()
+                try:
+                    got = ffuncs.sibling(cid, j, tag)
+                except Exception as e:
+                    fail("call returning a partition raises " + type(e).__name__, "%s sibling of level %d: %r" % (label, j, e))
+                    break
+                out["obs"]["sibling_children"] += 1
+                out["sets"]["provenances"].add("sibling|%s|%s|%s" % (sspec["kind"], smode, bname))
+                what = "second child (keys %s, parent from %s) of level %d" % (sk, smode, j - 1)
+                check_partition(out, fail, got, want, label, what + ", value handed back by the computing call")
+                check_partition(out, fail, ffuncs.sibling(cid, j, tag), want, label, what + ", later call")
+                sm = ffuncs.sibling.memento(cid, j, tag)
+                if sm is not None:
+                    check_partition(out, fail, plain.read_result(sm), want, label, what + ", re-read from disk")
+                held.append((("sib", tag, j), got, want))
+        # values handed out earlier stay usable after everything else happened, and every level is still
+        # served (from the cache, where there is one) as the overlay it was, whatever was stored on top of it
+        for item in held:
+            l, got = item[0], item[1]
+            want = item[2] if len(item) > 2 else overlays[l]
+            check_partition(out, fail, got, want, label, "%s, first value re-used at the end" % (l,))
+        for l in range(L):
+            if not any(h[0] == l for h in held):
+                continue
+            mark = REC.mark()
+            try:
+                again = ffuncs.chain(cid, l)
+            except Exception as e:
+                fail("call returning a partition raises " + type(e).__name__, "%s level %d at the end: %r" % (label, l, e))
+                continue
+            if REC.since(mark):
+                fail("a partition result was not memoized (body ran again on the next call)",
+                     "%s level %d at the end: bodies run again: %s" % (label, l, [e[1] for e in REC.since(mark)]))
+            out["obs"]["levels_served_again_at_the_end"] += 1
+            check_partition(out, fail, again, overlays[l], label, "level %d, served again after its children were stored" % l)
         if overlap and L > 1 and not out["viol"]:
             out["nontrivial"].append("%d|%s|%s|%s" % (L, ",".join(kinds), ",".join(modes[1:]), bname))
         out["sample"] = {"backend": bname, "kinds": kinds, "keys": keysets, "parent_provenance": modes[1:]}
@@ -140,5 +184,6 @@ def run_case(case):
 
 def conclude(agg):
     return core.first(core.need(agg, "partitions_compared", 500), core.need(agg, "keys_loaded_individually", 1000),
-                      core.need(agg, "served_without_body", 100),
+                      core.need(agg, "served_without_body", 100), core.need(agg, "sibling_children", 30),
+                      core.need(agg, "levels_served_again_at_the_end", 100),
                       None if len(agg.sets.get("provenances", ())) >= 12 else "too few provenance combinations"), {}
